@@ -59,16 +59,26 @@ THOROUGH_FACTOR = 12
 def run_batch(gh, idx, profile, n, extra, seed, reps=2):
     d = os.path.join(scratch(), "b%d" % idx)
     os.makedirs(d, exist_ok=True)
-    cmd = [gh, "engine-traces", "-profile", profile, "-seed", str(seed), "-n", str(n), "-out", "trace.ndjson", "-cases", "cases.ndjson"]
-    if "-reps" not in extra:
-        cmd += ["-reps", str(reps)]
-    cmd += extra
+    if profile.startswith("grb:"):
+        # C12 fault enumeration on the stored stream (truncation offsets, failing writer); traces only of prefixes that load
+        cmd = [gh, "grb-faults", "-profile", profile[4:], "-seed", str(seed), "-n", str(n), "-out", "trace.ndjson", "-cases", "cases.ndjson"] + extra
+    else:
+        cmd = [gh, "engine-traces", "-profile", profile, "-seed", str(seed), "-n", str(n), "-out", "trace.ndjson", "-cases", "cases.ndjson"]
+        if "-reps" not in extra:
+            cmd += ["-reps", str(reps)]
+        cmd += extra
     p = run(cmd, cwd=d, timeout=3000)
     stats = {}
     for line in p.stdout.splitlines():
         if line.startswith("STATS "):
             stats = json.loads(line[6:])
-    if not stats or stats.get("events", 0) == 0:
+    if not stats:
+        raise ToolError("driver printed no statistics: %s\n%s" % (" ".join(cmd), p.stdout[-2000:] + p.stderr[-2000:]))
+    stats.setdefault("dropped_big", 0)
+    if profile.startswith("grb:") and stats["events"] == 0:
+        return {"dir": d, "profile": profile, "stats": stats, "cmd": " ".join(cmd[1:]),
+                "tlc": {"flags": [], "distinct": 0, "summary": {"marks": {}, "lines": 0}}}
+    if stats.get("events", 0) == 0:
         raise ToolError("driver produced no events: %s\n%s" % (" ".join(cmd), p.stdout[-2000:] + p.stderr[-2000:]))
     res = tlc(None, "TraceEngine.tla", "TraceEngine.cfg", d, workers=1, timeout=3000)
     if not res["ok"] or res["summary"] is None or res["summary"]["lines"] != stats["events"]:
@@ -137,16 +147,25 @@ def replay(path):
 
 
 def check(prop):
+    r = evaluate(prop, *PLAN[prop])
+    return finish(prop, r)
+
+
+def evaluate(prop, batches, marks, rule, thorough_factor=None):
+    """Runs the exhaustive model and the driver batches, confirms flagged traces, prints VIOLATION lines.
+    Returns what finish() needs (so that composite checks can add their own parts)."""
     tier, seed = tier_seed()
     t0 = time.time()
-    batches, marks, rule = PLAN[prop]
     gh = build_harness()
-    factor = THOROUGH_FACTOR if tier == "thorough" else 1
+    factor = (thorough_factor or THOROUGH_FACTOR) if tier == "thorough" else 1
     jobs = []
     idx = 0
     for (profile, n, extra) in batches:
         total = n * factor
         parts = max(1, min(12, total // 400)) if tier == "thorough" else 1
+        if profile.startswith("grb:"):
+            parts = total  # one rule set per process
+
         for part in range(parts):
             jobs.append((idx, profile, total // parts, extra, seed * 7919 + idx * 101 + part))
             idx += 1
@@ -230,15 +249,20 @@ def check(prop):
     assumptions = ["TLC and the CommunityModules Json module", "the harness projection (fact snapshot, GRL printer)",
                    "generator discipline of DESIGN.md 2.4 (no selector aliasing, Forget after setters/reader methods, values below 2^20)",
                    "rule evaluation orders are sampled from Go map iteration, the oracle is order-independent"]
-    write_evidence(prop, tier, seed, "model_checking", cov, assumptions, violations, time.time() - t0)
     log("%s: %d traces / %d events validated, model %d distinct states, antecedents %d, first-flags %d, violations %d"
         % (prop, traces, events, model["distinct"], own_marks, len(flagged), violations))
-    if violations:
+    return {"cov": cov, "assumptions": assumptions, "violations": violations, "unreproduced": unreproduced, "own_marks": own_marks,
+            "t0": t0, "tier": tier, "seed": seed, "results": results, "gh": gh}
+
+
+def finish(prop, r, level="model_checking"):
+    write_evidence(prop, r["tier"], r["seed"], level, r["cov"], r["assumptions"], r["violations"], time.time() - r["t0"])
+    if r["violations"]:
         return 1
-    if unreproduced:
-        print("TOOL-ERROR: %d flagged trace(s) did not reproduce; see replays/" % unreproduced)
+    if r["unreproduced"]:
+        print("TOOL-ERROR: %d flagged trace(s) / divergence(s) did not reproduce; see replays/" % r["unreproduced"])
         return 2
-    if own_marks == 0:
+    if r["own_marks"] == 0:
         print("TOOL-ERROR: the antecedent of %s never occurred (vacuous run)" % prop)
         return 2
     return 0
